@@ -56,7 +56,7 @@ def c01_avg(ports, uops, as_dict):
     from osaca.semantics.hw_model import MachineModel
     mm = object.__new__(MachineModel)
     mm._data = {"ports": list(ports)}
-    uo = [[float(Fraction(c)), list(ps)] for c, ps in uops]
+    uo = [[float(Fraction(c)), (ps if isinstance(ps, str) else list(ps))] for c, ps in uops]
     want = [0.0] * len(ports)
     missing = [p for _, ps in uo for p in ps if p not in ports]
     for c, ps in uo:
